@@ -1,8 +1,73 @@
-import XehModel.Driver.Codec
+import XehModel.Driver.C01
+import XehModel.Model.Lex
 
 namespace Xeh.Driver.C17
+open Xeh Xeh.Codec Xeh.VMCodec Xeh.Compile
 
-/-- stub: not modelled yet -/
-def handle (_args : List String) : String := "unsupported"
+/-- `C17 fail text=<hex source> toks=<tok@start-end|…> nsrc=<k> <machine setup>`:
+    build and run the source on top of the given machine; on failure report the error, the blamed
+    token, and the location the model computes for it:
+    `err <kind> tok=<i> file=<buffer#k> line=<l> col=<c> whole=<hex>` -/
+structure Req where
+  base : C01.Req := {}
+  text : List Char := []
+  ranges : List (Nat × Nat) := []
+  nsrc : Nat := 0
+
+def parseRange (s : String) : Option (Nat × Nat) :=
+  match s.splitOn "-" with
+  | [a, b] => do let x ← a.toNat?; let y ← b.toNat?; pure (x, y)
+  | _ => none
+
+def splitTok (s : String) : Option (String × (Nat × Nat)) :=
+  match s.splitOn "@" with
+  | [t, r] => (parseRange r).map fun rr => (t, rr)
+  | _ => none
+
+def applyKV (r : Req) (kv : String) : Option Req :=
+  let (k, v) := splitKV kv
+  match k with
+  | "text" => (hexToStr v.toList).map fun t => { r with text := t }
+  | "nsrc" => v.toNat?.map fun n => { r with nsrc := n }
+  | "toks" =>
+    if v.isEmpty then some r else do
+      let parts ← (v.splitOn "|").mapM splitTok
+      let toks ← parts.mapM fun p => C01.parseTok p.1
+      pure { r with base := { r.base with toks := toks }, ranges := parts.map (·.2) }
+  | _ => (C01.applyKV r.base kv).map fun b => { r with base := b }
+
+def locStr (r : Req) (tok : Nat) : String :=
+  let start := match r.ranges[tok]? with
+    | some (s, _) => s
+    | none => utf8Len r.text      -- the empty token at the end of the text
+  match Lex.tokenLocation r.text start with
+  | .ok (loc, whole) => s!"file=<buffer#{r.nsrc}> line={loc.line} col={loc.col} whole={String.ofList (strToHex whole)}"
+  | _ => "loc-panic"
+
+def handleFail (r : Req) : String :=
+  match C01.compile r.base with
+  | .unsupported _ => "unsupported"
+  | .err e => s!"builderr {errStr e.err} tok={e.tok} {locStr r e.tok}"
+  | .ok s =>
+    let m := r.base.setup.m
+    let m1 : Mach := { m with code := s.code, dict := s.dict,
+                              heap := m.heap ++ List.replicate (s.heapLen - m.heap.length) Cell.nil,
+                              ctx := { m.ctx with ip := m.code.length } }
+    match Mach.run nativeProg runFuel m1 with
+    | none => "timeout"
+    | some (.panic p, _) => if p.startsWith "model:" then "unsupported" else "panic"
+    | some (.ok _, _) => "ok"
+    | some (.err e, m2) =>
+      match s.dmap[m2.ctx.ip]? with
+      | some tok => if m2.ctx.ip < m.code.length then "unsupported" else s!"err {errStr e} tok={tok} {locStr r tok}"
+      | none => "unsupported"
+
+def handle (args : List String) : String :=
+  match args with
+  | "fail" :: rest =>
+    match rest.foldlM applyKV {} with
+    | some r => handleFail r
+    | none => "bad-args"
+  | _ => "bad-op"
 
 end Xeh.Driver.C17
